@@ -72,7 +72,7 @@ def parse_dendrogram(newick, data, index_map, params, wcs=None):
     from ..structure import Structure
 
     d = Dendrogram()
-    d.ndim = len(data.shape)
+    d.n_dim = d.ndim = len(data.shape)
 
     d._structures_dict = {}
     d.data = data
